@@ -9,3 +9,9 @@ pub fn utc_timestamp(secs: i64) -> Timestamp {
         _ => unreachable!("We're requesting UTC so daylight saving time isn't a factor."),
     }
 }
+
+/// Like [`utc_timestamp`], but returning None for a number of seconds that is outside of the
+/// representable range of times, such as might be found in a task imported from elsewhere.
+pub(crate) fn try_utc_timestamp(secs: i64) -> Option<Timestamp> {
+    Utc.timestamp_opt(secs, 0).single()
+}
